@@ -352,7 +352,12 @@ def finish(ob: Obligation, acc: Acc, level: str, src: str, tgt: str, note: str =
         ob.replayed = True
         ob.replay_detail = "observed on the real engine (extracted API.run): " + "; ".join(
             f"{d['program']} {d['engine']} [documented: {d['documented']}]" for d in acc.dev[:3])
-        ob.finding_key = f"bounded::{level}::{src}->{tgt}::" + "+".join(classes)
+        # the key names the deviating operands (digest), so that a NEW deviating value of a pair with a known finding is
+        # a new finding and not hidden behind the known one
+        import hashlib
+        ops = sorted({f"{d['class']}|{d['operand']}" for d in acc.dev})
+        ob.finding_key = f"bounded::{level}::{src}->{tgt}::" + "+".join(classes) + \
+                         f"::{len(ops)}-{hashlib.sha1('~'.join(ops).encode()).hexdigest()[:8]}"
     elif acc.n == 0:
         ob.status, ob.detail = UNDECIDED, "nothing was evaluated for this pair"
     else:
